@@ -74,9 +74,20 @@ def instantiate_int_foralls(fs):
     import itertools
     cands = _int_candidates(fs)
     extra = []
+    # single-variable hypotheses over another sort (strings, keys): at the uninterpreted constants of that sort in the query (skolem
+    # constants of goals "for all x"), again as plain instances
+    others = {}
+    for f in fs:
+        if z3.is_quantifier(f): continue
+        for c_ in z3.z3util.get_vars(f):
+            if c_.sort() != z3.IntSort() and c_.sort().kind() in (z3.Z3_SEQ_SORT, z3.Z3_UNINTERPRETED_SORT, z3.Z3_DATATYPE_SORT) and ('sk_' in str(c_)):
+                others.setdefault(str(c_.sort()), {})[str(c_)] = c_
     for f in fs:
         if not (z3.is_quantifier(f) and f.is_forall()): continue
         nv = f.num_vars()
+        if nv == 1 and f.var_sort(0) != z3.IntSort():
+            for c_ in others.get(str(f.var_sort(0)), {}).values(): extra.append(z3.substitute_vars(f.body(), c_))
+            continue
         if nv > 2 or any(f.var_sort(i) != z3.IntSort() for i in range(nv)): continue
         for combo in itertools.product(cands, repeat=nv):
             extra.append(z3.substitute_vars(f.body(), *reversed(combo)))
